@@ -242,7 +242,9 @@ func (x *Exec) cutLoop(s *State, ord int, label string, spec *LoopSpec, pos toke
 	// 1. invariant on entry
 	if spec != nil {
 		for _, inv := range spec.Invariants {
+			x.goalMode = true
 			g := x.evalClause(s, inv)
+			x.goalMode = false
 			x.obligeNamed(s, fmt.Sprintf("%s/loop%d.inv#%d.entry", top, ord, inv.Ord), "invariant", g, x.pos(pos), inv.Text)
 		}
 	}
@@ -295,7 +297,9 @@ func (x *Exec) cutLoop(s *State, ord int, label string, spec *LoopSpec, pos toke
 			}
 			if spec != nil {
 				for _, inv := range spec.Invariants {
+					x.goalMode = true
 					g := x.evalClause(e, inv)
+					x.goalMode = false
 					x.obligeNamed(e, fmt.Sprintf("%s/loop%d.inv#%d.preserved", top, ord, inv.Ord), "invariant", g, x.pos(pos), inv.Text)
 				}
 				if dec0 != nil {
@@ -442,7 +446,9 @@ func (x *Exec) rangeLoop(s *State, n *ast.RangeStmt, ord int, label string, spec
 	bindKey(s)
 	if spec != nil {
 		for _, inv := range spec.Invariants {
+			x.goalMode = true
 			g := x.evalClause(s, inv)
+			x.goalMode = false
 			x.obligeNamed(s, fmt.Sprintf("%s/loop%d.inv#%d.entry", top, ord, inv.Ord), "invariant", g, x.pos(n.Pos()), inv.Text)
 		}
 	}
@@ -478,7 +484,9 @@ func (x *Exec) rangeLoop(s *State, n *ast.RangeStmt, ord int, label string, spec
 		bindKey(e)
 		if spec != nil {
 			for _, inv := range spec.Invariants {
+				x.goalMode = true
 				g := x.evalClause(e, inv)
+				x.goalMode = false
 				x.obligeNamed(e, fmt.Sprintf("%s/loop%d.inv#%d.preserved", top, ord, inv.Ord), "invariant", g, x.pos(n.Pos()), inv.Text)
 			}
 		}
